@@ -354,6 +354,34 @@ def replay_tour(mode, prog, replies, paths, ridbase=10, stop_after=1, progress=N
         loop.close()
 
 
+def _replay_chunk(args):
+    mode, prog, replies, chunk, ridbase = args
+    return replay_tour(mode, prog, replies, chunk, ridbase)
+
+
+def replay_tour_parallel(jobs, procs=8):
+    """jobs: list of (mode, prog, replies, paths).  The paths of every job are dealt to `procs` forked workers (each has its own
+    interpreter state, schedulers and simulator); returns one (paths_replayed, steps, mismatches) per job."""
+    import multiprocessing as mp
+    tasks, owner = [], []
+    for j, (mode, prog, replies, paths) in enumerate(jobs):
+        per = max(1, procs // len(jobs))
+        for c in range(per):
+            chunk = paths[c::per]
+            if chunk:
+                tasks.append((mode, prog, replies, chunk, 10))
+                owner.append(j)
+    ctx_ = mp.get_context('fork')
+    with ctx_.Pool(min(procs, len(tasks))) as pool:
+        res = pool.map(_replay_chunk, tasks)
+    out = [[0, 0, []] for _ in jobs]
+    for j, (n, steps, bad) in zip(owner, res):
+        out[j][0] += n
+        out[j][1] += steps
+        out[j][2] += bad
+    return [tuple(x) for x in out]
+
+
 # ------------------------------------------------------------------ code->spec: schedule exploration on the real code
 def _wrap_op(world, t, fn, api):
     """Record call/ret/exc events around the public call, in the thread's own context."""
